@@ -3,7 +3,10 @@
   cli/cli.go `Run` (compared with the real binary on every correspondence run): exit status and
   diagnostics, -o FILE versus -o -, stdin as a file named <stdin>, -f versus the inline
   program, argument order; and `-r E` ≡ `BEGINFILE { $ = E }` (sections "-r E …" below; proofs
-  in Lemmas/Selector*.lean).
+  in Lemmas/Selector*.lean): for selectors built from `$`, literals, member / index steps,
+  array and object literals, method calls, operators and `match` (`r_behaves_as_beginfile_rule`),
+  and also calls of the builtins for programs that never rebind a builtin name
+  (`r_behaves_as_beginfile_rule_builtins`, with `builtins_stay_intact`).
 -/
 import Jqawk.Model.Cli
 import Jqawk.Lemmas.SelectorRun
@@ -269,15 +272,17 @@ theorem selector_step (prog : Program) (T : SelTok) (E : Expr) (hE : selX (fun _
     (h0 : K.a0 = 0) (h0' : K.o0 = 0) (hKA : K.progA = prog) (hKB : K.progB = withSel prog T E)
     {sA sB : St} (hs : SR (mainX K) sA sB) (hlen : sB.frames.length = 1) :
     JRel prog (withSel prog T E) sel (evalSelector tbl sel v sA) (ruleStep (withSel prog T E) T E v sB) :=
-  junction prog T E hE (parseExpressionSrc_wf htbl sel E hparse) tbl sel hparse v wf h0 h0' hKA hKB hs hlen
+  junction prog T E false hE (parseExpressionSrc_wf htbl sel E hparse) tbl sel hparse v wf h0 h0' hKA hKB hs hlen
+    (fun h => by cases h)
 
 open Sel in
 /-- **Whole runs: `-r E` behaves as `BEGINFILE { $ = E }`.**  For every program `prog` whose
     ENDFILE rules (and, if it has any, the functions they might call) do not read `$`
     (`EndOK`; BEGINFILE rules and pattern rules are unrestricted — they see the selected value in
     both runs), every selector `E` of the class described at `selector_step` (container-creating
-    selectors and method calls included; identifiers other than `$` — the builtins `num`,
-    `json`, `printf` too — excluded), all input files: unless one of the runs is out of fuel,
+    selectors and method calls included; identifiers other than `$` excluded — for calls of the
+    builtins `num`, `json`, `printf` see `r_behaves_as_beginfile_rule_builtins` below), all input
+    files: unless one of the runs is out of fuel,
     * the outcome is of the same class with the same message (`OutcomeRel`: a runtime error in
       the selector is reported against the selector text by run A, against the program text by
       run B);
@@ -297,7 +302,8 @@ theorem r_behaves_as_beginfile_rule (tbl : RuleTable) (htbl : TblOK tbl) (prog :
     rA.outcome = .oof ∨ rB.outcome = .oof ∨
       (OutcomeRel sel src rA.outcome rB.outcome ∧ rA.out = rB.out ∧
         (rA.outcome = .ok → rA.st.bind getRootJson = rB.st.bind getRootJson)) :=
-  runProgram_rel prog T E hE (parseExpressionSrc_wf htbl sel E hparse) tbl sel hparse src hend files
+  runProgram_rel prog T E false hE (parseExpressionSrc_wf htbl sel E hparse) (fun h => by cases h) tbl sel hparse
+    src hend files
 
 open Sel in
 /-- the container-free selectors (`selE`: `$`, literals, member / index steps, operators,
@@ -326,6 +332,98 @@ theorem r_behaves_as_beginfile_rule_cli (tbl : RuleTable) (htbl : TblOK tbl) (pr
     finish fs o n (runProgram prog src tbl [sel] files) =
       finish fs o n (runProgram (withSel prog T E) src tbl [] files) := by
   have h := r_behaves_as_beginfile_rule tbl htbl prog T E sel src files hparse hE hend
+  rcases h with h | h | ⟨h1, h2, h3⟩
+  · exact absurd h hA
+  · exact absurd h hB
+  · revert h1 h2 h3 hA hB
+    generalize runProgram prog src tbl [sel] files = rA
+    generalize runProgram (withSel prog T E) src tbl [] files = rB
+    intro hA hB h1 h2 h3
+    unfold finish
+    cases hoA : rA.outcome <;> cases hoB : rB.outcome <;> rw [hoA, hoB] at h1 <;>
+      first
+        | exact h1.elim
+        | (simp only [h2]; done)
+        | (simp only [h2, h3 hoA]; done)
+        | rfl
+
+/-! ### selectors that call the builtins `num`, `json`, `printf`
+
+In run A the selector's nested evaluator has builtins of its own; in run B the rule looks the names
+up in the main evaluator, where the program may have put something else.  The two runs agree for
+programs that never rebind a builtin name — `Sel.okProg`: the names `printf`, `json`, `num` occur
+in the program only as the callee of a call, and no function, parameter, pattern binding or loop
+variable has such a name.  That this *syntactic* condition keeps the root frame's bindings of the
+three names and the cells they are bound to intact at every point of the run is proved by a
+separate invariant of the whole evaluator (`Sel.InvB`, `Sel.allBP`: every cell an expression hands
+out, every member of every array and object, every binding other than those three lies outside
+the builtin cells, and every write goes to such a cell). -/
+
+open Sel in
+/-- **The program leaves the builtins alone**: for a program satisfying `okProg` (and well
+    formed, as the parser guarantees), every evaluator function, at every fuel, from every state
+    satisfying the invariant `InvB` — the root frame binds `printf`, `json`, `num` to the cells
+    `b0` says, the cells outside the region (0, 1, 2 in the main evaluator) hold what they held
+    in `h0`, nothing else refers to them — ends in a state satisfying it again, and
+    `NewEvaluator` establishes it with the natives in the cells 0, 1, 2. -/
+theorem builtins_stay_intact (prog : Program) (hwf : prog.wfB = true) (hok : okProg prog = true) :
+    (∀ (h0 : Heap) (b0 : Bytes → Option CellId) (n : Nat), AllBP (P3 prog) h0 b0 prog n) ∧
+    InvB (P3 prog) (newEvaluator prog Heap.empty [] 0).heap b0m KAny (newEvaluator prog Heap.empty [] 0) ∧
+    (newEvaluator prog Heap.empty [] 0).heap.get 0 = .native .printf none none ∧
+    (newEvaluator prog Heap.empty [] 0).heap.get 1 = .native .json none none ∧
+    (newEvaluator prog Heap.empty [] 0).heap.get 2 = .native .num none none :=
+  ⟨fun h0 b0 n => allBP (P3 prog) h0 b0 prog (Nat.le_refl _) (Program.wfB_functions hwf) (okProg_functions hok) n,
+   newEvaluator_invB prog hok⟩
+
+open Sel in
+/-- **One decoded value, builtins allowed**: as `selector_step`, for selectors of the class
+    `selX isB` (calls of `num(..)`, `json(..)`, `printf(..)` in addition) in which the builtin
+    names occur as callees only (`okE`), from main evaluators related as there where that of run B
+    satisfies the builtin invariant (`BInv`). -/
+theorem selector_step_builtins (prog : Program) (T : SelTok) (E : Expr) (hE : selX isB E = true)
+    (hEok : okE E = true) (tbl : RuleTable) (htbl : TblOK tbl)
+    (sel : Bytes) (hparse : parseExpressionSrc tbl sel = .ok E) (v : JVal) {K : Ctx} (wf : K.WF)
+    (h0 : K.a0 = 0) (h0' : K.o0 = 0) (hKA : K.progA = prog) (hKB : K.progB = withSel prog T E)
+    {sA sB : St} (hs : SR (mainX K) sA sB) (hlen : sB.frames.length = 1)
+    (hinv : BInv (withSel prog T E) sB) (hwfB : (withSel prog T E).wfB = true)
+    (hokB : okProg (withSel prog T E) = true) :
+    JRel prog (withSel prog T E) sel (evalSelector tbl sel v sA) (ruleStep (withSel prog T E) T E v sB) :=
+  junction prog T E true hE (parseExpressionSrc_wf htbl sel E hparse) tbl sel hparse v wf h0 h0' hKA hKB hs hlen
+    (fun _ => ⟨hinv, hwfB, hokB, hEok⟩)
+
+open Sel in
+/-- **Whole runs, selectors that call builtins.**  As `r_behaves_as_beginfile_rule`, with
+    selectors that may also call `num(..)`, `json(..)` and `printf(..)` (class `selX isB`, the
+    builtin names as callees only: `okE`), for programs that never rebind a builtin name
+    (`okProg`, a syntactic condition) and whose ENDFILE rules do not read `$`: unless one of the
+    runs is out of fuel, same outcome class and message, same output (what `printf` in the
+    selector prints included), same `-o` document.  (`hT`: the `$` token of the rule is not
+    spelled like a builtin.) -/
+theorem r_behaves_as_beginfile_rule_builtins (tbl : RuleTable) (htbl : TblOK tbl) (prog : Program)
+    (T : SelTok) (E : Expr) (sel src : Bytes) (files : List InputFile)
+    (hparse : parseExpressionSrc tbl sel = .ok E) (hprog : parseProgramSrc tbl src = .ok prog)
+    (hE : selX isB E = true) (hEok : okE E = true) (hok : okProg prog = true)
+    (hT : isB T.dtok.text = false) (hend : EndOK prog) :
+    let rA := runProgram prog src tbl [sel] files
+    let rB := runProgram (withSel prog T E) src tbl [] files
+    rA.outcome = .oof ∨ rB.outcome = .oof ∨
+      (OutcomeRel sel src rA.outcome rB.outcome ∧ rA.out = rB.out ∧
+        (rA.outcome = .ok → rA.st.bind getRootJson = rB.st.bind getRootJson)) :=
+  runProgram_rel prog T E true hE (parseExpressionSrc_wf htbl sel E hparse)
+    (fun _ => ⟨parseProgramSrc_wf htbl src prog hprog, hok, hEok, hT⟩) tbl sel hparse src hend files
+
+open Sel in
+/-- … and the command line ends alike -/
+theorem r_behaves_as_beginfile_rule_builtins_cli (tbl : RuleTable) (htbl : TblOK tbl) (prog : Program)
+    (T : SelTok) (E : Expr) (sel src : Bytes) (files : List InputFile)
+    (hparse : parseExpressionSrc tbl sel = .ok E) (hprog : parseProgramSrc tbl src = .ok prog)
+    (hE : selX isB E = true) (hEok : okE E = true) (hok : okProg prog = true)
+    (hT : isB T.dtok.text = false) (hend : EndOK prog) (fs : List Entry) (o : Opts) (n : Nat)
+    (hA : (runProgram prog src tbl [sel] files).outcome ≠ .oof)
+    (hB : (runProgram (withSel prog T E) src tbl [] files).outcome ≠ .oof) :
+    finish fs o n (runProgram prog src tbl [sel] files) =
+      finish fs o n (runProgram (withSel prog T E) src tbl [] files) := by
+  have h := r_behaves_as_beginfile_rule_builtins tbl htbl prog T E sel src files hparse hprog hE hEok hok hT hend
   rcases h with h | h | ⟨h1, h2, h3⟩
   · exact absurd h hA
   · exact absurd h hB
@@ -446,6 +544,52 @@ example : obs (evalProgram expectedRuleTable b!"{ print $ }" [b!"$.n / 0"] [doc1
            (evalProgram expectedRuleTable b!"BEGINFILE { $ = $.n / 0 } { print $ }" [] [doc1]).outcome with
      | .runtimeErr sA pA _, .runtimeErr sB pB _ => sA == b!"$.n / 0" && pA == 4 && sB != sA && pB == 20
      | _, _ => false) = true := by
+  decide +kernel
+
+def doc2 : InputFile := ⟨b!"f", b!"{\"payload\":\"{\\\"x\\\":[1,2]}\",\"count\":\"12\",\"a\":{\"k\":1}}", .eof⟩
+
+/-- selectors that call builtins: they are in the class of `r_behaves_as_beginfile_rule_builtins`,
+    and programs that call `printf` / `num` (as everyday programs do) satisfy `okProg` -/
+example : ([b!"num($.count) + 1", b!"json($.a)", b!"[num($.count) + 1, $.count.length()]",
+      b!"printf(\"sel %s\\n\", $.count)"].all (fun sel =>
+    match parseExpressionSrc expectedRuleTable sel with
+    | .ok e => Sel.selX Sel.isB e && Sel.okE e | _ => false)) = true ∧
+    ([b!"{ printf(\"%s\\n\", $) }", b!"function f(x) { return num(x) + 1 } { print f($) } ENDFILE { printf(\"end\\n\") }"].all
+      (fun src => match parseProgramSrc expectedRuleTable src with
+        | .ok p => Sel.okProg p && endOKB p | _ => false)) = true := by decide +kernel
+
+/-- … the two command lines agree: `num`, `json` and a method call -/
+example : obs (evalProgram expectedRuleTable b!"{ print $ }" [b!"[num($.count) + 1, $.count.length(), json($.a)]"] [doc2]) =
+    obs (evalProgram expectedRuleTable b!"BEGINFILE { $ = [num($.count) + 1, $.count.length(), json($.a)] } { print $ }" [] [doc2]) ∧
+    (obs (evalProgram expectedRuleTable b!"{ print $ }" [b!"[num($.count) + 1, $.count.length(), json($.a)]"] [doc2])).2.1 =
+      b!"13\n2\n{\n  \"k\": 1\n}\n" := by
+  decide +kernel
+
+/-- … `printf` in the selector prints in both runs (and the selected value is `null`) -/
+example : obs (evalProgram expectedRuleTable b!"{ print $ }" [b!"printf(\"sel %s\\n\", $.count)"] [doc2]) =
+    obs (evalProgram expectedRuleTable b!"BEGINFILE { $ = printf(\"sel %s\\n\", $.count) } { print $ }" [] [doc2]) ∧
+    (obs (evalProgram expectedRuleTable b!"{ print $ }" [b!"printf(\"sel %s\\n\", $.count)"] [doc2])).2.1 =
+      b!"sel 12\nnull\n" := by
+  decide +kernel
+
+/-- **delimits the claim (`okProg`)**: a function named like a builtin replaces it in the main
+    evaluator, not in the selector's — `okProg` fails, and the two command lines differ -/
+example : (match parseProgramSrc expectedRuleTable b!"function num(x) { return 99 } { print $ }" with
+      | .ok p => Sel.okProg p | _ => true) = false ∧
+    (obs (evalProgram expectedRuleTable b!"function num(x) { return 99 } { print $ }" [b!"num($.count)"] [doc2])).2.1 = b!"12\n" ∧
+    (obs (evalProgram expectedRuleTable b!"BEGINFILE { $ = num($.count) } function num(x) { return 99 } { print $ }" [] [doc2])).2.1 =
+      b!"99\n" := by
+  decide +kernel
+
+/-- **several `-r` flags** are outside these theorems: all selectors of a decoded value are
+    evaluated before any rule runs for it (C02 `selectors_in_order_per_value`), so a run with
+    `-r E1 -r E2` is not the single-selector processing of `E1` followed by that of `E2` — an
+    error in `E2` comes before the output for the first root — and no rule runs once per selector.
+    Two roots in order; and nothing printed when the second selector fails (same on the binary). -/
+example : (obs (evalProgram expectedRuleTable b!"{ print $ }" [b!"$.a", b!"$.s"] [doc1])).2.1 = b!"{\"k\": 1}\nhello\n" ∧
+    (obs (evalProgram expectedRuleTable b!"{ print $ }" [b!"$.a", b!"$.s / 0"] [doc1])).2.1 = b!"" ∧
+    (obs (evalProgram expectedRuleTable b!"{ print $ }" [b!"$.a", b!"$.s / 0"] [doc1])).1 = (2, "divide by zero") ∧
+    (obs (evalProgram expectedRuleTable b!"{ print $ }" [b!"$.a"] [doc1])).2.1 = b!"{\"k\": 1}\n" := by
   decide +kernel
 
 /-- **delimits the claim (a)**: an identifier other than `$` is the program's global in the rule
